@@ -266,6 +266,45 @@ pub fn shrink_world(sc: &WorldSc, fails: &mut dyn FnMut(&WorldSc) -> bool) -> Wo
     shrink_field!(indices);
     attempt!(|c: &mut WorldSc| c.state.quote_name = false);
     attempt!(|c: &mut WorldSc| c.state.send_name = false);
+    // inside the bound values and the remaining CODE / EXEC items
+    for k in 0..best.state.bindings.len() {
+        let val = vec![best.state.bindings[k].1.clone()];
+        let b2 = best.clone();
+        let r = shrink_program(
+            &val,
+            &mut |cand| {
+                if cand.len() != 1 {
+                    return false;
+                }
+                let mut c = b2.clone();
+                c.state.bindings[k].1 = cand[0].clone();
+                fails(&c)
+            },
+            &mut budget,
+        );
+        if r.len() == 1 {
+            best.state.bindings[k].1 = r[0].clone();
+        }
+    }
+    for k in 0..best.state.code.len() {
+        let val = vec![best.state.code[k].clone()];
+        let b2 = best.clone();
+        let r = shrink_program(
+            &val,
+            &mut |cand| {
+                if cand.len() != 1 {
+                    return false;
+                }
+                let mut c = b2.clone();
+                c.state.code[k] = cand[0].clone();
+                fails(&c)
+            },
+            &mut budget,
+        );
+        if r.len() == 1 {
+            best.state.code[k] = r[0].clone();
+        }
+    }
     // a second pass over the program after the state got smaller
     if let ProgSpec::Explicit(p) = &best.prog {
         let p = p.clone();
